@@ -61,6 +61,23 @@ def check_step_wrapper(run, it):
     it.explore(h, "Integrator.step")
 
 
+def second_order_conditions(ctx, tag, flows, t):
+    """Order conditions of a splitting scheme, from the traced flow sequence [(label, time), ...] of the real _step.
+    With the component flows exact (C07) the step is  prod_i exp(tau_i X_i),  X_i in {A, B} the Lie derivatives of h1, h2.  Expanding to
+    second order in the free associative algebra on A, B:
+        1 + sum_i tau_i X_i + 1/2 sum_i tau_i^2 X_i^2 + sum_{i<j} tau_i tau_j X_i X_j + O(t^3)
+    and exp(t (A + B)) = 1 + t (A + B) + t^2/2 (A^2 + AB + BA + B^2) + O(t^3).  Given the first-order conditions (time sums, proved
+    separately) the A^2 and B^2 coefficients agree automatically, and the scheme is of order >= 2 iff
+        sum_{i<j, X_i = A, X_j = B} tau_i tau_j == t^2 / 2      (equivalently the same sum with A and B exchanged).
+    This replaces the citation `consistent + symmetric => order 2` (A9) for the explicit splitting integrators by a discharged obligation."""
+    ab = _sum(to_real(a[1]) * to_real(b[1]) for i, a in enumerate(flows) for b in flows[i + 1:] if a[0] == "h1_flow" and b[0] == "h2_flow")
+    ba = _sum(to_real(a[1]) * to_real(b[1]) for i, a in enumerate(flows) for b in flows[i + 1:] if a[0] == "h2_flow" and b[0] == "h1_flow")
+    ctx.prove(tag + "/second-order-condition[AB]", 2 * ab == t * t,
+              text="sum over pairs (h1 sub-step before h2 sub-step) of the products of their times == time_step^2 / 2: local error O(time_step^3)")
+    ctx.prove(tag + "/second-order-condition[BA]", 2 * ba == t * t,
+              text="sum over pairs (h2 sub-step before h1 sub-step) of the products of their times == time_step^2 / 2")
+
+
 def check_leapfrog(run, it):
     run.function("mici.integrators.LeapfrogIntegrator._step")
     if run.prop == "C06":
@@ -79,6 +96,7 @@ def check_leapfrog(run, it):
                   text="leapfrog: sum of h2_flow times == time_step")
         pal = z3.And(*[z3.And(z3.BoolVal(a[0] == b[0]), to_real(a[1]) == to_real(b[1])) for a, b in zip(flows, reversed(flows))])
         ctx.prove(P + "LeapfrogIntegrator._step/palindromic", pal, text="leapfrog: flow sequence is palindromic (labels and times)")
+        second_order_conditions(ctx, P + "LeapfrogIntegrator._step", flows, t)
         ok = [f[0] for f in flows] == ["h1_flow", "h2_flow", "h1_flow"]
         ctx.run.ob(P + "LeapfrogIntegrator._step/arrangement", core.DISCHARGED if ok else core.FAILED, "pyvc",
                    detail="" if ok else str([f[0] for f in flows]), text="leapfrog arrangement h1,h2,h1")
@@ -137,6 +155,7 @@ def check_composition(run, it, tier):
                    text="flows alternate A,B,...,A starting with h1 iff initial_h1_flow_step")
         pal2 = z3.And(*[z3.And(z3.BoolVal(x[0] == y[0]), to_real(x[1]) == to_real(y[1])) for x, y in zip(fl, reversed(fl))])
         ctx.prove(tag + "._step/palindromic", pal2, text="composition step trace palindromic")
+        second_order_conditions(ctx, tag + "._step", fl, t)
     it.explore(h, "Composition", roots=roots)
     run.bounded.append({"id": "C06/" + P + "SymmetricCompositionIntegrator", "detail": f"number of free coefficients n in 0..{max_n} "
                         "(unbounded in the coefficient values; the library's BCSS schemes are n=1,2,3)"})
@@ -154,6 +173,7 @@ def check_composition(run, it, tier):
         ctx.prove(P + f"{name}._step/time_sums", z3.And(_sum(x[1] for x in fl if x[0] == "h1_flow") == t,
                                                          _sum(x[1] for x in fl if x[0] == "h2_flow") == t),
                   text=f"{name}: both components advance by exactly time_step")
+        second_order_conditions(ctx, P + f"{name}._step", fl, t)
         stages = sum(1 for x in fl if x[0] == "h2_flow")
         ok = stages == k + 2
         ctx.run.ob(P + f"{name}/stage-count", core.DISCHARGED if ok else core.FAILED, "pyvc",
@@ -310,7 +330,9 @@ def check_constrained(run, it):
 
 def run(run_, tier):
     it = make_interp(run_)
-    run_.assume("A9 (cited, not proved): a consistent symmetric composition of exact flows / adjoint pairs has order >= 2")
+    run_.assume("A9 (cited, not proved) now only for the implicit and constrained schemes: a consistent composition Phi*_{t/2} o Phi_{t/2} of a first-order map with its adjoint "
+                "has order >= 2 (generalised leapfrog, implicit midpoint, RATTLE). For the explicit splitting integrators (leapfrog, symmetric compositions, BCSS) the second-order "
+                "conditions are discharged from the traced sub-step times (Lie-series expansion to second order; component flows exact by C07; analytic Hamiltonian)")
     run_.assume("A1: times are mathematical reals")
     run_.trust("system flow methods are contract stubs (their exactness is C07's obligation)")
     for pref in ("ImplicitMidpointIntegrator", "ConstrainedLeapfrogIntegrator", "Integrator.step", "BCSS"):
